@@ -42,7 +42,7 @@ def impl():
 
 
 def quiet(f, *a, **k):
-    with contextlib.redirect_stdout(io.StringIO()):
+    with contextlib.redirect_stdout(io.StringIO()), contextlib.redirect_stderr(io.StringIO()):
         return f(*a, **k)
 
 
